@@ -85,7 +85,17 @@ func big(tag string) string { return "big-" + tag + "-" + strings.Repeat("x", 20
 
 const nOpKinds = 6 // kinds offered to the free choice; kind 6 (a record the destination refuses) is used in fixed plans only
 
-var opNames = []string{"root.Info", "child.Warn", "derive+Error", "below-threshold", "20KiB", "root.Infof", "refused-by-destination", "wide.WithGroup+Error", "wide.With+Warn", "wide.Info"}
+var opNames = []string{"root.Info", "child.Warn", "derive+Error", "below-threshold", "20KiB", "root.Infof", "refused-by-destination", "wide.WithGroup+Error", "wide.With+Warn", "wide.Info", "grouped.Info(group attr with a slow LogValuer)", "grouped.Warn(group attr, slow LogValuer first)"}
+
+// slowLV is a LogValuer whose resolution is a scheduling point: another goroutine may log through
+// the same handler while this record is half rendered (a key path or scratch buffer kept in the
+// handler instead of the call would then be shared between the two records)
+type slowLV struct{ v string }
+
+func (l slowLV) LogValue() slog.Value {
+	vsched.Event("resolving-a-LogValuer")
+	return slog.StringValue(l.v)
+}
 
 // doOp is the single call site of every logging operation (so that source positions agree
 // between the concurrent run and the run-alone reference).
@@ -100,6 +110,10 @@ func doOp(root, child, wide *logger.Logger, kind int, tag string) {
 		wide.With("q", tag).Warn("v-" + tag)
 	case 9:
 		wide.Info("u-"+tag, "y", 2)
+	case 10: // through the shared, pre-derived logger that sits inside a group
+		child.Info("y-"+tag, slog.Group("req", "val", slowLV{"slow"}, "n", 1), "after", tag)
+	case 11:
+		child.Warn("z-"+tag, "first", slowLV{"s2"}, slog.Group("x y", "k", 2), "tail", tag)
 	case 0:
 		root.Info("m-"+tag, "k", tag, slog.Int("n", 1))
 	case 1:
@@ -115,6 +129,15 @@ func doOp(root, child, wide *logger.Logger, kind int, tag string) {
 	case 6:
 		root.Info("REFUSED-"+tag, "k", tag)
 	}
+}
+
+// slowPlan: the Text handler takes a scratch buffer from a pool for every attribute (each Get is a
+// choice point), so its unbounded search does not finish in the quick tier; it is bounded instead
+func slowPlan(hn string) sdrive.Plan {
+	if hn == "text" {
+		return sdrive.Plan{Bounds: []int{0, 1, 2}}
+	}
+	return sdrive.Plan{Bounds: []int{0, 1, -1}}
 }
 
 func derive(root *logger.Logger) *logger.Logger { return root.With("pre", 1).WithGroup("g") }
@@ -304,6 +327,8 @@ func main() {
 				Quick: any2x1, Thorough: PS(16, 0, 1, -1), Body: body(scen{h, [][]int{{-2}, {-2}}}), MinOutcomes: 9},
 			sdrive.Scenario{Name: hn + "-shared-parent-2x2", Props: []string{"C02"}, About: "as above, two operations each: derive+log twice against derive+log and a log through the parent",
 				Quick: q22, Thorough: PS(16, 0, 1, -1), Body: body(scen{h, [][]int{{7, 8}, {7, 9}}}), MinOutcomes: 2},
+			sdrive.Scenario{Name: hn + "-grouped-slow-valuer", Props: []string{"C02"}, About: "two goroutines log through the same pre-derived logger inside a group; the records carry group attributes and a LogValuer whose resolution is a scheduling point, so each record is rendered while the other is half done",
+				Quick: slowPlan(hn), Thorough: PS(16, 0, 1, 2, 3), Body: body(scen{h, [][]int{{10}, {11}}}), MinOutcomes: 2},
 			sdrive.Scenario{Name: hn + "-3x2", Props: []string{"C02"}, About: "three goroutines, two operations each",
 				Quick: q32, Thorough: PS(16, 0, 1, 2, 3, 4), Body: body(scen{h, [][]int{{0, 1}, {2, 5}, {1, 0}}}), MinOutcomes: 2},
 			sdrive.Scenario{Name: hn + "-3x3", Props: []string{"C02"}, About: "three goroutines, three operations each (thorough only beyond bound 1)",
